@@ -400,6 +400,8 @@ def rule_D(run, prog):
                 continue
             for nme, fn in c.methods.items():
                 if nme in ("__init__", "initialize", "_implementation", "secularize", "convert_2_tensor",
-                           "updateStructure", "add_dephasing", "_convert_operators_2_tensor") and fn not in funcs:
+                           "updateStructure", "add_dephasing", "_convert_operators_2_tensor",
+                           "_reference_implementation", "td_reference_implementation") and fn not in funcs:
                     funcs.append(fn)
     apiexist.check_self_attributes(run, rid, prog, funcs, "constructing the tensor")
+    apiexist.check_call_arity(run, rid, prog, funcs, "constructing the tensor")
